@@ -31,8 +31,11 @@ CONTAINERS = ('f64', 'i64', 'list')
 P = np.array([0.3, 0.05])
 # auxiliary array arguments (periods, shifts, travel times, query points ...): deliberately unsorted where the
 # function allows it, shared by all probes, snapshot-checked around every call and restored if a call modified them
-AUX0 = {'P': [0.3, 0.05], 'P3': [0.5, 0.1, 0.3], 'SH': [2, -1, 0], 'SH2': [2, 0], 'SH3': [2, 1], 'TT': [0.13, 0.05], 'TS': [0.2, 0.1],
+AUX0 = {'P': [0.3, 0.05], 'P3': [0.5, 0.1, 0.3], 'P4': [0.05, 0.1, 0.4, 0.8], 'SF4': [0.5, 0.9, 3.0, 8.0], 'SH': [2, -1, 0], 'SH2': [2, 0], 'SH3': [2, 1], 'TT': [0.13, 0.05], 'TS': [0.2, 0.1],
         'XQ': [1.5, 0.5], 'SF': [1.0, 0.5], 'NC': [5.0], 'B': [0.34, 0.1], 'CUTS': [0.5, 2.0], 'UR': [1., .8], 'DR': [.5, 1.], 'TRIM_TT': [0.2, 0.1]}
+# a second menu: every array of length >= 3 keeps its length and its end values but changes inside (an answer must not depend on
+# what an earlier call with a look-alike argument computed)
+AUX_B = {'P3': [0.5, 0.2, 0.3], 'P4': [0.05, 0.2, 0.3, 0.8], 'SF4': [0.5, 1.7, 5.0, 8.0], 'SH': [2, 1, 0]}
 AUX = {}
 
 
@@ -43,6 +46,13 @@ def reset_aux():
 
 
 reset_aux()
+
+
+def set_aux(variant):
+    """A: the standard menu; B: same lengths and end values, different inside; C: one element shorter (another cache key)"""
+    for k, v in AUX_B.items():
+        vals = v if variant == 'B' else AUX0[k][:-1] if variant == 'C' else AUX0[k]
+        AUX[k] = np.array(vals, dtype=(int if k.startswith('SH') else float))
 
 
 def aux_snapshot():
@@ -107,6 +117,10 @@ def box_ops(cls):
         b.cont = b.new_vals
         b.snap['cont'] = snapshot(b.cont)
     ops['mut:reset_values(caller container)'] = reset
+    def assign_values(b):
+        # attribute assignment: whether the library ignores, rejects or accepts it, the ownership invariants must hold afterwards
+        b.obj.values = b.new_vals
+    ops['mut:values = caller container (attribute assignment)'] = assign_values
     ops['mut:add_series(ndarray)'] = lambda b: b.obj.add_series(b.ser)
     ops['mut:add_series(list)'] = lambda b: b.obj.add_series(b.ser_list)
     ops['mut:add_signal'] = lambda b: b.obj.add_signal(b.other)
@@ -199,6 +213,10 @@ REG = [
     ('sdof.pseudo_response_spectra', 2, lambda x, y: sdof.pseudo_response_spectra(x, 0.1, AUX['P'], 0.05)),
     ('sdof.true_response_spectra', 2, lambda x, y: sdof.true_response_spectra(x, 0.1, AUX['P'], 0.05)),
     ('sdof.single_elastic_response', 2, lambda x, y: sdof.single_elastic_response(x, 0.1, 0.3, 0.05)),
+    ('sdof.response_series(4 periods)', 2, lambda x, y: sdof.response_series(x, 0.1, AUX['P4'], 0.05)),
+    ('sdof.pseudo_response_spectra(4 periods)', 2, lambda x, y: sdof.pseudo_response_spectra(x, 0.1, AUX['P4'], 0.05)),
+    ('frequency.calc_smooth_fa_spectrum(4 targets)', 3, lambda x, y: frequency.calc_smooth_fa_spectrum(np.arange(len(x)) * 0.5, x, AUX['SF4'])),
+    ('frequency.calc_smoothing_matrix_konno_1998(4 targets)', 3, lambda x, y: frequency.calc_smoothing_matrix_konno_1998(np.arange(len(x)) * 0.5, AUX['SF4'])),
     ('sdof.absmax', 2, lambda x, y: sdof.absmax(x)),
     ('displacements.calc_velo_and_disp_from_accel_arr', 2, lambda x, y: displacements.calc_velo_and_disp_from_accel_arr(x, 0.1)),
     ('displacements.calc_velo_and_disp_from_accel_arr(trap=False)', 2, lambda x, y: displacements.calc_velo_and_disp_from_accel_arr(x, 0.1, trap=False)),
@@ -302,6 +320,8 @@ OBJ = [
     ('frequency.fas2signal', 4, lambda s: frequency.fas2signal(s.fa_spectrum, s.dt)),
     ('time_step.interp_to_approx_dt', 2, lambda s: time_step.interp_to_approx_dt(s, 0.03)),
     ('time_step.interp_to_approx_dt(decimate)', 4, lambda s: time_step.interp_to_approx_dt(s, 0.3)),
+    ('time_step.interp_to_approx_dt(same step)', 2, lambda s: time_step.interp_to_approx_dt(s, 0.1, even=False)),
+    ('time_step.resample_to_approx_dt(same step)', 2, lambda s: time_step.resample_to_approx_dt(s, 0.1, even=False)),
     ('time_step.resample_to_approx_dt', 2, lambda s: time_step.resample_to_approx_dt(s, 0.03)),
     ('time_shift.join_sig_w_time_shift', 2, lambda s: time_shift.join_sig_w_time_shift(s, AUX['TS'])),
     ('stockwell.get_max_stockwell_freq', 4, stockwell.get_max_stockwell_freq),
@@ -445,7 +465,7 @@ def build(tier, seed):
         'bounds': {'mutator_depth': depth, 'max_len': L, 'alphabet': [-1, 0, 2], 'registry_array_functions': len(REG),
                    'registry_object_functions': len(OBJ), 'excluded': EXCLUDE, 'uncovered_public_callables': uncovered()},
         'required_classes': ['A:constructor', 'A:reset_values', 'A:list', 'A:i64', 'A:transition-changed-values', 'A-cluster:time_match-shifted',
-                             'B:returned', 'B:raised-both-times', 'B:list-input', 'B:int-input', 'B:history'],
+                             'B:returned', 'B:raised-both-times', 'B:list-input', 'B:int-input', 'B:history', 'B:A-B-A'],
         'assumptions': ['purity is decided for the functions in the explicit registry; public callables in neither the registry nor the exclusion '
                         'list are reported under bounds.uncovered_public_callables',
                         'a function that raises for an input must raise again on the second call and still leave its input unchanged'],
@@ -531,6 +551,13 @@ def object_state(s):
     st = [snapshot(np.asarray(s.values)), s.dt, s.npts, snapshot(np.asarray(s.smooth_fa_freqs))]
     if hasattr(s, 'response_times'):
         st.append(snapshot(np.asarray(s.response_times)))
+    # ... and what the object derives from the record (a query that edits a cached series in place corrupts later reads)
+    for rname in ('time', 'fa_spectrum', 'fa_freqs', 'velocity', 'displacement', 'pga', 'pgv', 'pgd'):
+        if hasattr(type(s), rname):
+            try:
+                st.append(snapshot(np.asarray(getattr(s, rname))))
+            except Exception as e:  # noqa
+                st.append('raises ' + type(e).__name__)
     return tuple(st)
 
 
@@ -549,6 +576,8 @@ def _scribble_result(res):
 
 
 HIST_MAXLEN = 4
+import re  # noqa: E402
+ABA_AUX = re.compile(r'4 periods|4 targets|im\.calc_asi|im\.calc_vsi|put_array_in_2d_array$')
 
 
 def history_independent(r, name, fn, ctor, rec, sub):
@@ -570,13 +599,38 @@ def history_independent(r, name, fn, ctor, rec, sub):
             getattr(hist_obj, rname)
         except Exception:
             pass
+    for mname in ('generate_cumulative_stats', 'generate_all_motion_stats'):     # deprecated public methods that store results on the object
+        if hasattr(hist_obj, mname):
+            try:
+                getattr(hist_obj, mname)()
+            except Exception:
+                pass
     run(hist_obj)
+    # a second history: the same length, other values (what survives a same-length edit)
+    try:
+        hist2 = ctor(np.array(rec, dtype=float)[::-1] * 1.5 + 0.25)
+        for mname in ('generate_cumulative_stats',):
+            if hasattr(hist2, mname):
+                try:
+                    getattr(hist2, mname)()
+                except Exception:
+                    pass
+        run(hist2)
+        hist2.reset_values(np.array(rec, dtype=float))
+    except Exception:
+        hist2 = None
     try:
         hist_obj.reset_values(np.array(rec, dtype=float))
     except Exception:
         return
     r.evals += 2
     a0 = run(fresh_obj)
+    if hist2 is not None:
+        a2 = run(hist2)
+        r.n_cmp += 1
+        if a0[0] == 'ok' and a2[0] == 'ok' and not bits_equal(a0[1], a2[1]):
+            r.fail('purity.history-dependent', dict(sub, history='same-length record before'),
+                   '%s gives a different result on an object that held another record of the same length before' % name, observed=a2[1], expected=a0[1])
     a1 = run(hist_obj)
     r.n_cmp += 1
     r.cls('B:history')
@@ -625,6 +679,12 @@ def check_call(r, name, fn, args, snap_of0, sub):
                            observed=args[0] if args else None)
                     reset_aux()
                     return
+                for o_ in (out if isinstance(out, (tuple, list)) else [out]):
+                    if isinstance(o_, eqsig.Signal) and _aliases_input(o_, args):
+                        r.n_cmp += 1
+                        r.fail('ownership.returned-signal-shares-data', sub, '%s returns a signal object that shares its data with the argument '
+                               '(a signal owns its data)' % name)
+                        return
                 if not _aliases_input(out, args):   # a result that is a view of the caller's own input is the caller's business
                     _scribble_result(out)
                 out = keep
@@ -643,6 +703,29 @@ def check_call(r, name, fn, args, snap_of0, sub):
                    observed=args[0] if args else None)
             reset_aux()
             return
+    # C-B-A-B: a call with look-alike auxiliary arguments (B: same lengths and end values as A, different inside) must not depend on
+    # whether the call before it used A or something unrelated (C), and A must still give its first answer afterwards
+    if res[0][0] == 'ok' and res[1][0] == 'ok' and ABA_AUX.search(name):
+        r.evals += 4
+        try:
+            seq = {}
+            for step, variant in enumerate(('C', 'B', 'A', 'B')):
+                set_aux(variant)
+                try:
+                    seq[step] = ('ok', copy.deepcopy(fn(*args)))
+                except Exception as e:  # noqa
+                    seq[step] = ('exc', type(e).__name__)
+            set_aux('A')
+            r.n_cmp += 2
+            r.cls('B:A-B-A')
+            if seq[2][0] != 'ok' or not bits_equal(res[0][1], seq[2][1]):
+                r.fail('purity.not-repeatable', sub, '%s returns a different result after intervening calls with other auxiliary arguments' % name,
+                       observed=seq[2][1], expected=res[0][1])
+            elif seq[1][0] != seq[3][0] or (seq[1][0] == 'ok' and not bits_equal(seq[1][1], seq[3][1])):
+                r.fail('purity.not-repeatable', sub, '%s: the result for one set of auxiliary arguments depends on which look-alike set (same length and end '
+                       'values) was used in the call before' % name, observed=seq[3][1], expected=seq[1][1])
+        finally:
+            set_aux('A')
     r.n_cmp += 1
     if res[0][0] != res[1][0]:
         r.fail('purity.not-repeatable', sub, '%s: first call %s, second call %s' % (name, res[0][0], res[1][0]))
